@@ -8,6 +8,7 @@ CONSTANTS
   Faults = {"dup", "drop"}
   MaxFaults = 1
   CC0 = 14
+  EarlyPMT = FALSE
   StartLike = TRUE
   Dev = {}
 INVARIANTS C06_DupHarmless C06_LossSafe
